@@ -193,11 +193,15 @@ def explore(model, thunk, opts=None, max_paths=MAX_PATHS):
     """thunk(interp) -> value.  Runs it once per feasible label assignment."""
     results = []
     stack = [[]]
+    import time as _time
+    limit = (opts or {}).get('time_limit')
+    deadline = (_time.time() + limit) if limit else None
     while stack:
         script = stack.pop()
         tr = Trace(script)
         tr.no_fork = bool((opts or {}).get('no_fork'))
         it = Interp(model, tr, opts or {})
+        it.deadline = deadline
         res = None
         try:
             v = thunk(it)
@@ -554,6 +558,11 @@ class Interp(object):
             self.exec_stmt(st, env)
 
     def exec_stmt(self, st, env):
+        dl = getattr(self, 'deadline', None)
+        if dl is not None:
+            import time as _time
+            if _time.time() > dl:
+                raise Undecidable('the time limit of this theorem is exceeded (expressions outside the exact fragment grow without bound)')
         m = getattr(self, 'st_' + type(st).__name__, None)
         if m is None:
             raise Undecidable('statement %s' % type(st).__name__)
